@@ -157,3 +157,53 @@ func VerifLayout(file []byte) (*Layout, error) {
 	}
 	return l, nil
 }
+
+// Container is what the pinned loaders read from the index structures of a file.
+type Container struct {
+	DictLocs           []uint64
+	Names              []string
+	Docs, Freqs        []uint64
+	StoredChunkOffsets []uint64
+	DocOffsets         []uint64
+	DvLocs             [][2]uint64
+}
+
+// VerifContainer loads the file with the pinned loader and reports the raw
+// contents of the fields section, the stored trailer and index and the
+// doc-value location index.
+func VerifContainer(file []byte) (*Container, error) {
+	s, err := load(segment.NewDataBytes(file))
+	if err != nil {
+		return nil, err
+	}
+	c := &Container{DictLocs: s.dictLocs, StoredChunkOffsets: s.storedFieldChunkOffsets}
+	for i, n := range s.fieldsInv {
+		c.Names = append(c.Names, n)
+		c.Docs = append(c.Docs, s.fieldDocs[uint16(i)])
+		c.Freqs = append(c.Freqs, s.fieldFreqs[uint16(i)])
+	}
+	for d := uint64(0); d < s.footer.numDocs; d++ {
+		_, off, err := s.getDocStoredOffsetsOnly(d)
+		if err != nil {
+			return nil, err
+		}
+		c.DocOffsets = append(c.DocOffsets, off)
+	}
+	if s.footer.docValueOffset != fieldNotUninverted && s.footer.numDocs != 0 {
+		var read uint64
+		for range s.fieldsInv {
+			var loc [2]uint64
+			for k := 0; k < 2; k++ {
+				b, err := s.data.Read(int(s.footer.docValueOffset+read), int(s.footer.docValueOffset+read+binary.MaxVarintLen64))
+				if err != nil {
+					return nil, err
+				}
+				v, n := binary.Uvarint(b)
+				loc[k] = v
+				read += uint64(n)
+			}
+			c.DvLocs = append(c.DvLocs, loc)
+		}
+	}
+	return c, nil
+}
